@@ -1053,10 +1053,11 @@ class ComputeGraph(MultiDiGraph):
         # directly — so we have to strip the marker here too, otherwise the
         # Fortran printer emits bare `identity(...)` calls that gfortran flags
         # as undefined functions.
-        expr = expr.replace(
-            lambda e: isinstance(e, sp.Function) and e.func.__name__ == 'identity',
-            lambda e: e.args[0]
-        )
+        # (markers can be nested, e.g. an edge whose source is itself an edge input: one pass strips one level)
+        def is_identity(e):
+            return isinstance(e, sp.Function) and e.func.__name__ == 'identity'
+        while expr.find(is_identity):
+            expr = expr.replace(is_identity, lambda e: e.args[0])
         return expr
 
     def _expr_to_jac_str(self, expr, sym_to_y_idx: dict, past_sym_to_str: dict):
